@@ -15,6 +15,11 @@ try:
 except ImportError:
     pass
 
+MINI_A = build("a:")        # a second library prefix whose letter also starts node names (A, a/b, ...)
+GROUP_A = HedSchemaGroup([MINI, MINI_A])
+_PFX = ["p:", "a:"]
+_GROUPS = [GROUP, GROUP_A]
+_MEMBERS = [MINI_P, MINI_A]
 _SCRATCH = build()          # a schema object whose prefix the harness may change
 _SCRATCH2 = build()
 
@@ -53,20 +58,23 @@ def _view(tag_text, schema):
     return (entry.long_tag_name if entry else None, tag._extension_value, _codes(issues)), entry
 
 
-def prefixed_equals_alone(t: str) -> bool:
+def prefixed_equals_alone(t: str, k: int) -> bool:
     """
     pre: 1 <= len(t) <= R.N(3)
     pre: R.scell(t, "/")
     pre: R.ascii_printable(t)
     pre: ":" not in t
+    pre: 0 <= k <= 1 and (R.env_int("VP_K") is None or k == R.env_int("VP_K"))
     post: _
     """
     # a tag carrying prefix p: in the group is judged exactly as the unprefixed tag against p's schema alone
-    in_group, e1 = _view("p:" + t, GROUP)
-    alone, e2 = _view(t, MINI)            # MINI_P is the same schema as MINI, loaded under the prefix
+    # (k selects the library prefix: "p:" or "a:" - the latter shares its letter with node names)
+    GROUP = _GROUPS[k]
+    in_group, e1 = _view(_PFX[k] + t, GROUP)
+    alone, e2 = _view(t, MINI)            # the member schema is the same schema as MINI, loaded under the prefix
     if in_group != alone:
         return False
-    if e1 is not None and e1 is not MINI_P.tags.get(e1.name):
+    if e1 is not None and e1 is not _MEMBERS[k].tags.get(e1.name):
         return False                      # resolved inside the wrong member schema
     # an unprefixed tag in the group is judged as against the unprefixed schema alone (same entry object)
     in_group_u, e3 = _view(t, GROUP)
@@ -187,7 +195,7 @@ def version_list(v1: str, v2: str, v3: str, n: int) -> bool:
     return len(out) == len([1 for i in range(len(pairs)) if pairs[i][0] not in [p[0] for p in pairs[:i]]])
 
 
-_ST = ["mini schema (25-node tag tree, real 8.3.0 unit/value classes) loaded twice: unprefixed and as 'p:'",
+_ST = ["mini schema (25-node tag tree, real 8.3.0 unit/value classes) loaded unprefixed and as 'p:' / 'a:'",
        "chx ASCII casefold accelerator"]
 
 HARNESSES = [
@@ -203,9 +211,12 @@ HARNESSES = [
          "hed.schema.hed_schema.HedSchema._find_tag_entry", "hed.schema.hed_schema.HedSchema._find_tag_subfunction",
          "hed.schema.hed_schema_group.HedSchemaGroup.schema_for_namespace",
          "hed.models.hed_tag.HedTag._calculate_to_canonical_forms"],
-        quick=R.tier(cells=R.str_cells(3, split1_from=3, nclass=2, minlen=1), env={"VP_N": 3}, timeout=300,
+        quick=R.tier(cells=R.product_cells(R.int_cells("VP_K", 0, 1), R.str_cells(3, split1_from=3, nclass=2, minlen=1)),
+                     env={"VP_N": 3}, timeout=300,
                      bound="every printable-ASCII tag text t without ':', 1 <= len(t) <= 3"),
-        thorough=R.tier(cells=R.str_cells(4, split1_from=3, split2_from=4, nclass=2, minlen=1), env={"VP_N": 4},
+        thorough=R.tier(cells=R.product_cells(R.int_cells("VP_K", 0, 1),
+                                              R.str_cells(4, split1_from=3, split2_from=4, nclass=2, minlen=1)),
+                        env={"VP_N": 4},
                         timeout=1200, bound="same with len(t) <= 4"),
         what="'p:'+t in the group resolves to the same node name, remainder and issue codes as t against p's schema "
              "alone, inside the p: member schema; unprefixed t in the group equals t against the unprefixed schema",
